@@ -432,6 +432,13 @@ func (w *Worker) runPathOnce(fn *ssa.Function, item WorkItem, retry bool) (bool,
 					outcome, detail = "error", r.msg
 				case budgetEnd:
 					outcome, detail = "budget", r.what
+					if r.what == "step budget" {
+						// possible non-termination: hand the inputs of this path to the native replay, which decides (hang = violation)
+						func() {
+							defer func() { recover() }()
+							p.violation("hang", "step budget exhausted on this path: possible non-termination", "", nil)
+						}()
+					}
 				case targetPanic:
 					outcome = "violation"
 					func() {
